@@ -87,7 +87,6 @@ func c25Run(p *kit.Program, r *kit.Report, pre string) {
 		}
 	}
 	r.Require(len(cx.gates) >= 1, "anchor-unresolved: %sno Executor method (meta *ShellMeta) error (validation gate)", pre)
-	r.Require(cx.mu != nil, "anchor-unresolved: %smutex field of Executor", pre)
 	if len(r.Floors) > 0 {
 		return
 	}
@@ -1012,6 +1011,63 @@ func (cx *c25Ctx) ruleR4() {
 			continue
 		}
 		nonWild++
+		// functional form: slices.ContainsFunc / IndexFunc over the arguments with a predicate
+		// whose negative outcome implies both rejections
+		allVia := func(mk func(func(ssa.Value) bool, int) func(kit.G8Fact) bool) func(kit.G8Fact) bool {
+			return func(f kit.G8Fact) bool {
+				if f.Nil {
+					return false
+				}
+				var call *ssa.Call
+				wantPred := false // outcome of the predicate for every element on this edge
+				switch x := f.V.(type) {
+				case *ssa.Call:
+					call = x
+					if kit.CalleeOf(x).Name != "ContainsFunc" || f.Pol {
+						return false
+					}
+				case *ssa.BinOp: // slices.IndexFunc(args, pred) < 0 / == -1 / >= 0 ...
+					c, ok := x.X.(*ssa.Call)
+					k, isK := kit.ConstInt(x.Y)
+					if !ok || !isK || kit.CalleeOf(c).Name != "IndexFunc" {
+						return false
+					}
+					// the edge must exclude every index >= 0
+					holdsNeg := (k == 0 && cmpHolds(x.Op, -1) == f.Pol && cmpHolds(x.Op, 0) != f.Pol && cmpHolds(x.Op, 1) != f.Pol) ||
+						(k == -1 && cmpHolds(x.Op, 0) == f.Pol && cmpHolds(x.Op, 1) != f.Pol)
+					if !holdsNeg {
+						return false
+					}
+					call = c
+				default:
+					return false
+				}
+				cal := kit.CalleeOf(call)
+				if cal.Pkg != "slices" || len(call.Call.Args) != 2 || call.Call.Args[0] != args {
+					return false
+				}
+				pred := kit.G8FuncOfValue(cx.p, call.Call.Args[1])
+				if pred == nil || pred.Blocks == nil || len(pred.Params) == 0 {
+					return false
+				}
+				prm := ssa.Value(pred.Params[len(pred.Params)-1])
+				sub := mk(func(v ssa.Value) bool { return v == prm }, 1)
+				ws := kit.G8Witnesses(pred, 0, wantPred)
+				if len(ws) == 0 {
+					return false
+				}
+				for _, w2 := range ws {
+					if !w2.Passes(sub) {
+						return false
+					}
+				}
+				return true
+			}
+		}
+		if w.Passes(allVia(patRejects)) && w.Passes(allVia(absRejects)) {
+			r.OK("C25.R4", key, p.Pos(w.Pos()), "nil only after slices.ContainsFunc/IndexFunc found no argument matching the pattern or being absolute")
+			continue
+		}
 		// the return must lie behind the exhausted range over args (or the wildcard)
 		if !w.Passes(func(f kit.G8Fact) bool { return loopDone(f) || cx.wildcardFact(f) }) || len(loops) == 0 {
 			r.Violation("C25.R4", key, p.Pos(w.Pos()), "ValidateArgs returns nil outside wildcard mode without having iterated over all arguments: arguments with metacharacters or absolute paths reach the command")
@@ -1055,17 +1111,111 @@ func (cx *c25Ctx) ruleR4() {
 
 func (cx *c25Ctx) ruleR5() {
 	p, r := cx.p, cx.r
-	// the counter: int field of Executor stored in AcquireSession
-	kit.Instrs(cx.acquire, func(in ssa.Instruction) {
-		if st, ok := in.(*ssa.Store); ok {
-			if fa, ok := st.Addr.(*ssa.FieldAddr); ok && c24Named(fa.X.Type(), kit.PkgPath(c25Pkg), "Executor") {
-				cx.sessions = kit.FieldOfAddr(fa)
+	// the counter: the field incremented by one in AcquireSession or its package-local callees
+	var mus []*types.Var
+	var scan func(f *ssa.Function, depth int)
+	seenFn := map[*ssa.Function]bool{}
+	scan = func(f *ssa.Function, depth int) {
+		if f == nil || f.Blocks == nil || seenFn[f] {
+			return
+		}
+		seenFn[f] = true
+		kit.Instrs(f, func(in ssa.Instruction) {
+			st, ok := in.(*ssa.Store)
+			if !ok || cx.sessions != nil {
+				return
+			}
+			fa, ok := st.Addr.(*ssa.FieldAddr)
+			if !ok {
+				return
+			}
+			b, ok := st.Val.(*ssa.BinOp)
+			if !ok || b.Op != token.ADD {
+				return
+			}
+			if lf, _ := kit.LoadedField(b.X); lf == nil || lf != kit.FieldOfAddr(fa) {
+				return
+			}
+			cx.sessions = kit.FieldOfAddr(fa)
+			t := fa.X.Type()
+			if pt, ok := t.Underlying().(*types.Pointer); ok {
+				t = pt.Elem()
+			}
+			if n, ok := t.(*types.Named); ok {
+				for _, fld := range kit.StructFields(n) {
+					if c24Named(fld.Type(), "sync", "Mutex") || c24Named(fld.Type(), "sync", "RWMutex") {
+						mus = append(mus, fld)
+					}
+				}
+			}
+		})
+		if depth < 2 {
+			for _, c := range kit.Calls(f) {
+				if cal := kit.CalleeOf(c); cal.Static != nil && kit.FuncPkgPath(cal.Static) == kit.PkgPath(c25Pkg) {
+					scan(cal.Static, depth+1)
+				}
 			}
 		}
-	})
+	}
+	scan(cx.acquire, 0)
 	if cx.sessions == nil {
-		r.Violation("C25.R5", cx.key(kit.FuncName(cx.acquire)+" counter"), p.Pos(cx.acquire.Pos()), "AcquireSession does not advance any Executor counter: the number of concurrent sessions is unbounded")
+		r.Violation("C25.R5", cx.key(kit.FuncName(cx.acquire)+" counter"), p.Pos(cx.acquire.Pos()), "AcquireSession does not advance any session counter: the number of concurrent sessions is unbounded")
 		return
+	}
+	if len(mus) == 0 && cx.mu != nil {
+		mus = []*types.Var{cx.mu}
+	}
+	// heldMu: a mutex of the counter's struct held at the instruction
+	heldMu := func(li *kit.LockInfo, in ssa.Instruction) *types.Var {
+		for _, m := range mus {
+			if _, held := li.HeldAt(in, m); held {
+				return m
+			}
+		}
+		return nil
+	}
+	// isMax: the configured maximum - Config.MaxSessions, or a field/parameter that only ever
+	// receives it
+	var isMax func(v ssa.Value, depth int) bool
+	isMax = func(v ssa.Value, depth int) bool {
+		if c25CfgField(v, "MaxSessions") {
+			return true
+		}
+		if depth > 2 {
+			return false
+		}
+		if prm, ok := v.(*ssa.Parameter); ok {
+			fn := prm.Parent()
+			idx := -1
+			for i, q := range fn.Params {
+				if q == prm {
+					idx = i
+				}
+			}
+			sites := p.StaticCallers(fn)
+			if idx < 0 || len(sites) == 0 {
+				return false
+			}
+			for _, site := range sites {
+				if args := site.Common().Args; idx >= len(args) || !isMax(args[idx], depth+1) {
+					return false
+				}
+			}
+			return true
+		}
+		if fld, _ := kit.LoadedField(v); fld != nil && fld != cx.sessions {
+			stores := p.FieldAccessesOfKind(fld, kit.FieldStore, kit.FieldAddrUse)
+			if len(stores) == 0 {
+				return false
+			}
+			for _, acc := range stores {
+				if acc.Kind != kit.FieldStore || !isMax(acc.Val, depth+1) {
+					return false
+				}
+			}
+			return true
+		}
+		return false
 	}
 	isSess := func(v ssa.Value) bool { f, _ := kit.LoadedField(v); return f == cx.sessions }
 	n := 0
@@ -1077,15 +1227,15 @@ func (cx *c25Ctx) ruleR5() {
 			r.Violation("C25.R5", key, pos, "the address of the session counter escapes: it can be modified outside the executor mutex")
 			continue
 		}
-		if k, ok := kit.ConstInt(acc.Val); ok && k == 0 && acc.Fn != cx.acquire && acc.Fn != cx.release {
+		if k, ok := kit.ConstInt(acc.Val); ok && k == 0 && !seenFn[acc.Fn] && acc.Fn != cx.release {
 			if _, isAlloc := acc.Base.(*ssa.Alloc); isAlloc {
 				r.OK("C25.R5", key, pos, "zero initialisation of a fresh Executor")
 				continue
 			}
 		}
 		li := kit.Locks(acc.Fn)
-		_, held := li.HeldAt(acc.Instr, cx.mu)
-		if !held {
+		mu := heldMu(li, acc.Instr)
+		if mu == nil {
 			r.Violation("C25.R5", key, pos, "the session counter is written without holding the executor mutex: two concurrent acquisitions both see sessions < MaxSessions and the maximum is exceeded")
 			continue
 		}
@@ -1112,29 +1262,29 @@ func (cx *c25Ctx) ruleR5() {
 				default:
 					return false
 				}
-				if isSess(y) && c25CfgField(x, "MaxSessions") {
+				if isSess(y) && isMax(x, 0) {
 					x, y, op = y, x, flipCmp(op)
 				}
-				if z, ok := kit.ConstInt(x); ok && z == 0 && c25CfgField(y, "MaxSessions") {
+				if z, ok := kit.ConstInt(x); ok && z == 0 && isMax(y, 0) {
 					x, y, op = y, x, flipCmp(op)
 				}
-				if c25CfgField(x, "MaxSessions") {
+				if isMax(x, 0) {
 					// unlimited: MaxSessions OP 0 on this edge excludes MaxSessions > 0
 					if z, ok := kit.ConstInt(y); ok && z == 0 {
 						return cmpHolds(op, 1) != f.Pol
 					}
 					return false
 				}
-				if !isSess(x) || !c25CfgField(y, "MaxSessions") {
+				if !isSess(x) || !isMax(y, 0) {
 					return false
 				}
 				// sessions OP max on this edge must exclude sessions == max and sessions > max
 				if cmpHolds(op, 0) == f.Pol || cmpHolds(op, 1) == f.Pol {
 					return false
 				}
-				return li.SameRegion(x.(ssa.Instruction), st, cx.mu)
+				return li.SameRegion(x.(ssa.Instruction), st, mu)
 			}
-			ok := li.SameRegion(ld, st, cx.mu) && kit.G8MustPass(st, bound)
+			ok := li.SameRegion(ld, st, mu) && kit.G8MustPass(st, bound)
 			r.Decide(ok, "C25.R5", key, pos, "incremented by one in the region of the comparison excluding sessions >= MaxSessions",
 				"the increment is not preceded, in the same critical section, by a comparison that excludes sessions >= MaxSessions (for MaxSessions > 0): concurrent or boundary acquisitions exceed the configured maximum")
 		case isB && b.Op == token.SUB && k >= 1 && isSess(b.X):
@@ -2027,5 +2177,26 @@ var c25SelfTests = []SelfTest{
 	}},
 	{Name: "merged helper accepts when either check passes", ExpectRule: "C25.R2", ExpectKey: "requires", Edits: []Edit{
 		{File: c25E, Old: "\tif !e.IsCommandAllowed(meta.Command) {\n\t\treturn fmt.Errorf(\"command '%s' is not allowed\", meta.Command)\n\t}\n\n\tif err := e.ValidateArgs(meta.Args); err != nil {\n\t\treturn err\n\t}\n\n\treturn e.AcquireSession()\n}\n", New: "\tif err := e.checkCommand(meta); err != nil {\n\t\treturn err\n\t}\n\n\treturn e.AcquireSession()\n}\n\nfunc (e *Executor) checkCommand(meta *ShellMeta) error {\n\tif e.IsCommandAllowed(meta.Command) || e.ValidateArgs(meta.Args) == nil {\n\t\treturn nil\n\t}\n\treturn fmt.Errorf(\"command '%s' is not allowed\", meta.Command)\n}\n"},
+	}},
+	// ---- round 3: refactoring classes
+	{Name: "rewrite: ValidateArgs via slices.IndexFunc with a per-argument predicate", Edits: []Edit{
+		{File: c25E, Old: "\t\"regexp\"\n", New: "\t\"regexp\"\n\t\"slices\"\n"},
+		{File: c25E, Old: "\tfor i, arg := range args {\n\t\tif dangerousArgPattern.MatchString(arg) {\n\t\t\treturn fmt.Errorf(\"argument %d contains dangerous characters\", i)\n\t\t}\n\t\tif filepath.IsAbs(arg) {\n\t\t\treturn fmt.Errorf(\"argument %d: absolute paths not allowed\", i)\n\t\t}\n\t}\n\treturn nil\n}\n", New: "\tif i := slices.IndexFunc(args, unsafeShellArg); i >= 0 {\n\t\treturn fmt.Errorf(\"argument %d is not allowed\", i)\n\t}\n\treturn nil\n}\n\nfunc unsafeShellArg(arg string) bool {\n\treturn dangerousArgPattern.MatchString(arg) || filepath.IsAbs(arg)\n}\n"},
+	}},
+	{Name: "IndexFunc predicate requires both conditions", ExpectRule: "C25.R4", ExpectKey: "nil-return", Edits: []Edit{
+		{File: c25E, Old: "\t\"regexp\"\n", New: "\t\"regexp\"\n\t\"slices\"\n"},
+		{File: c25E, Old: "\tfor i, arg := range args {\n\t\tif dangerousArgPattern.MatchString(arg) {\n\t\t\treturn fmt.Errorf(\"argument %d contains dangerous characters\", i)\n\t\t}\n\t\tif filepath.IsAbs(arg) {\n\t\t\treturn fmt.Errorf(\"argument %d: absolute paths not allowed\", i)\n\t\t}\n\t}\n\treturn nil\n}\n", New: "\tif i := slices.IndexFunc(args, unsafeShellArg); i >= 0 {\n\t\treturn fmt.Errorf(\"argument %d is not allowed\", i)\n\t}\n\treturn nil\n}\n\nfunc unsafeShellArg(arg string) bool {\n\treturn dangerousArgPattern.MatchString(arg) && filepath.IsAbs(arg)\n}\n"},
+	}},
+	{Name: "rewrite: session accounting extracted into a limiter struct with its own mutex", Edits: []Edit{
+		{File: c25E, Old: "type Executor struct {\n\tconfig   Config\n\tmu       sync.Mutex\n\tsessions int // Active session count\n}", New: "type Executor struct {\n\tconfig  Config\n\tlimiter sessionLimiter\n}\n\ntype sessionLimiter struct {\n\tmu     sync.Mutex\n\tactive int\n}\n\nfunc (l *sessionLimiter) acquire(max int) bool {\n\tl.mu.Lock()\n\tdefer l.mu.Unlock()\n\tif max > 0 && l.active >= max {\n\t\treturn false\n\t}\n\tl.active++\n\treturn true\n}\n\nfunc (l *sessionLimiter) release() {\n\tl.mu.Lock()\n\tdefer l.mu.Unlock()\n\tif l.active > 0 {\n\t\tl.active--\n\t}\n}\n\nfunc (l *sessionLimiter) count() int {\n\tl.mu.Lock()\n\tdefer l.mu.Unlock()\n\treturn l.active\n}"},
+		{File: c25E, Old: c25AcquireBody, New: "\tif !e.limiter.acquire(e.config.MaxSessions) {\n\t\treturn fmt.Errorf(\"max sessions (%d) reached\", e.config.MaxSessions)\n\t}\n\treturn nil\n"},
+		{File: c25E, Old: "\te.mu.Lock()\n\tdefer e.mu.Unlock()\n\n\tif e.sessions > 0 {\n\t\te.sessions--\n\t}\n", New: "\te.limiter.release()\n"},
+		{File: c25E, Old: "\te.mu.Lock()\n\tdefer e.mu.Unlock()\n\treturn e.sessions\n", New: "\treturn e.limiter.count()\n"},
+	}},
+	{Name: "limiter struct with an off-by-one bound", ExpectRule: "C25.R5", ExpectKey: "write of active", Edits: []Edit{
+		{File: c25E, Old: "type Executor struct {\n\tconfig   Config\n\tmu       sync.Mutex\n\tsessions int // Active session count\n}", New: "type Executor struct {\n\tconfig  Config\n\tlimiter sessionLimiter\n}\n\ntype sessionLimiter struct {\n\tmu     sync.Mutex\n\tactive int\n}\n\nfunc (l *sessionLimiter) acquire(max int) bool {\n\tl.mu.Lock()\n\tdefer l.mu.Unlock()\n\tif max > 0 && l.active > max {\n\t\treturn false\n\t}\n\tl.active++\n\treturn true\n}\n\nfunc (l *sessionLimiter) release() {\n\tl.mu.Lock()\n\tdefer l.mu.Unlock()\n\tif l.active > 0 {\n\t\tl.active--\n\t}\n}\n\nfunc (l *sessionLimiter) count() int {\n\tl.mu.Lock()\n\tdefer l.mu.Unlock()\n\treturn l.active\n}"},
+		{File: c25E, Old: c25AcquireBody, New: "\tif !e.limiter.acquire(e.config.MaxSessions) {\n\t\treturn fmt.Errorf(\"max sessions (%d) reached\", e.config.MaxSessions)\n\t}\n\treturn nil\n"},
+		{File: c25E, Old: "\te.mu.Lock()\n\tdefer e.mu.Unlock()\n\n\tif e.sessions > 0 {\n\t\te.sessions--\n\t}\n", New: "\te.limiter.release()\n"},
+		{File: c25E, Old: "\te.mu.Lock()\n\tdefer e.mu.Unlock()\n\treturn e.sessions\n", New: "\treturn e.limiter.count()\n"},
 	}},
 }
